@@ -69,9 +69,12 @@ type lbEngine struct {
 	lostDumped bool
 	recorded   map[string]bool
 	scanFns    map[string]bool // functions whose loops are byte scans: checked for unit steps and exhaustive exits
+	tiling     bool            // C13/R4: track the Space/Raw/Pos/End stores of tokens and comments
+	shallow    bool            // calls to lexer methods only move the cursor forward (not followed)
 	rootPre    []string
 	owner   map[atomID]ssa.Value
 	live    map[*ssa.Function]map[*ssa.BasicBlock]map[ssa.Value]bool
+	moves   map[*ssa.Function]int
 }
 
 // lbRootPre: preconditions of roots that are interpreted without a calling context.
@@ -83,6 +86,10 @@ var lbRootPre = map[string]struct {
 }
 
 type ghostKey struct{ b *ssa.BasicBlock }
+type ghostFieldKey struct {
+	owner any
+	name  string
+}
 
 type lenKey struct{ v any }
 type primeKey struct{ a atomID }
@@ -870,6 +877,16 @@ func (e *lbEngine) phiAssign(in *lbInst, b, pred *ssa.BasicBlock, s *lstate) (*l
 			pa := e.prime(a)
 			out = out.eq(linAtom(pa), l)
 			ren[pa] = a
+			if e.tiling && isStringType(phi.Type()) {
+				plo, phi2, _ := e.bufSlice(in, phi)
+				glo, ghi := plo.t[0].a, phi2.t[0].a
+				drop[glo], drop[ghi] = true, true
+				if lo, hi, ok := e.bufSlice(in, phi.Edges[pi]); ok {
+					pl, ph := e.prime(glo), e.prime(ghi)
+					out = out.eq(linAtom(pl), lo).eq(linAtom(ph), hi)
+					ren[pl], ren[ph] = glo, ghi
+				}
+			}
 		case isBoolType(phi.Type()):
 			drop[e.atom(phi)] = true
 		}
@@ -1140,9 +1157,14 @@ func (e *lbEngine) execBlock(in *lbInst, b *ssa.BasicBlock, st *lstate, rets *[]
 						st = st.with(lfact{l: l})
 					}
 				}
+			} else if e.tiling && e.tilingStore(in, &st, x) {
 			} else if fa, ok := x.Addr.(*ssa.FieldAddr); ok && fieldAddrName(fa) == "Buffer" && e.aliasOf(in, fa.X) == "file" {
 				st = st.eliminate(e.at, map[atomID]bool{e.N: true})
 				e.notes = append(e.notes, "Buffer reassigned in "+funcName(in.fn))
+			}
+		case *ssa.Alloc:
+			if e.tiling && isNamed(x.Type().(*types.Pointer).Elem(), modRoot+"/token", "TokenComment") {
+				st = e.dropGhosts(st, x)
 			}
 		case *ssa.Lookup:
 			if isStringType(x.X.Type()) {
@@ -1159,6 +1181,11 @@ func (e *lbEngine) execBlock(in *lbInst, b *ssa.BasicBlock, st *lstate, rets *[]
 		case *ssa.Return:
 			if e.trace && e.record {
 				fmt.Printf("LB RET %s: %s\n", e.context(), e.at.showState(st))
+			}
+			if e.tiling && e.record && len(e.frames) == 1 {
+				le := linAtom(e.at.get("lastEnd", "end of the last token/comment", false))
+				e.requireAt(st, in.fn, x, "C13/R4", funcName(in.fn)+": on return the cursor is where the last token or comment ended",
+					[]string{"pos <= last End", "pos >= last End"}, []lin{le.sub(linAtom(e.P)), linAtom(e.P).sub(le)})
 			}
 			if rets != nil {
 				*rets = append(*rets, lbRet{st: st, vals: x.Results, in: in})
@@ -1277,6 +1304,18 @@ func (e *lbEngine) execCall(in *lbInst, st *lstate, call *ssa.Call) *lstate {
 			}
 		}
 		return st
+	}
+	if e.shallow && callee.Signature.Recv() != nil && len(com.Args) > 0 && e.aliasOf(in, com.Args[0]) == "lexer" && e.movesCursor(callee) {
+		// the callee only moves the cursor forward (it has no other access to Lexer.pos than skip/skipN)
+		var grow []lfact
+		for _, f := range st.f {
+			if f.g == 0 && f.l.coef(e.P) > 0 {
+				grow = append(grow, f)
+			}
+		}
+		pp := e.prime(e.P)
+		st = st.ge(linAtom(pp), linAtom(e.P)).eliminate(e.at, map[atomID]bool{e.P: true}).renameAll(map[atomID]atomID{pp: e.P})
+		return st.with(grow...)
 	}
 	inlinable := callee.Blocks != nil && len(e.frames) < lbMaxDepth && corePkg(fnPkgPath(callee)) && e.inScope(callee)
 	if !inlinable {
@@ -1646,6 +1685,211 @@ func (e *lbEngine) requireAt(st *lstate, fn *ssa.Function, instr ssa.Instruction
 	}
 }
 
+// movesCursor: the callee (transitively) stores to Lexer.pos.
+func (e *lbEngine) movesCursor(fn *ssa.Function) bool {
+	if e.moves == nil {
+		e.moves = map[*ssa.Function]int{}
+	}
+	switch e.moves[fn] {
+	case 1:
+		return true
+	case 2:
+		return false
+	case 3:
+		return false // in progress
+	}
+	e.moves[fn] = 3
+	res := false
+	for _, b := range fn.Blocks {
+		for _, in := range b.Instrs {
+			switch x := in.(type) {
+			case *ssa.Store:
+				if fa, ok := x.Addr.(*ssa.FieldAddr); ok && fieldAddrName(fa) == "pos" {
+					if n := fieldAddrStruct(fa); n != nil && n.Obj().Name() == "Lexer" {
+						res = true
+					}
+				}
+			case *ssa.Call:
+				if c := x.Call.StaticCallee(); c != nil && c.Blocks != nil && fnPkgPath(c) == modRoot && e.movesCursor(c) {
+					res = true
+				}
+			}
+		}
+	}
+	if res {
+		e.moves[fn] = 1
+	} else {
+		e.moves[fn] = 2
+	}
+	return res
+}
+
+// ---- C13/R4: tiling of the input by Space and Raw ---------------------------------------------------
+
+func (e *lbEngine) ghostAtom(owner any, ownerName, field string) atomID {
+	return e.at.get(ghostFieldKey{owner, field}, ownerName+"."+field, false)
+}
+
+var tilingGhosts = []string{"Pos", "End", "RawLo", "RawHi", "SpaceLo", "SpaceHi"}
+
+func (e *lbEngine) dropGhosts(st *lstate, owner any) *lstate {
+	drop := map[atomID]bool{}
+	for _, g := range tilingGhosts {
+		if id, ok := e.at.byKey[ghostFieldKey{owner, g}]; ok {
+			drop[id] = true
+		}
+	}
+	return st.eliminate(e.at, drop)
+}
+
+// bufSlice: the value is Buffer[lo:hi].
+func (e *lbEngine) bufSlice(in *lbInst, v ssa.Value) (lo, hi lin, ok bool) {
+	switch x := v.(type) {
+	case *ssa.Slice:
+		if e.aliasOf(in, x.X) != "buffer" {
+			return lin{}, lin{}, false
+		}
+		lo, hi = linConst(0), linAtom(e.N)
+		if x.Low != nil {
+			if l, ok := e.linear(in, x.Low); ok {
+				lo = l
+			}
+		}
+		if x.High != nil {
+			if l, ok := e.linear(in, x.High); ok {
+				hi = l
+			}
+		}
+		return lo, hi, true
+	case *ssa.Phi:
+		// bounds of a phi of input slices are tracked as atoms assigned on the incoming edges
+		return linAtom(e.at.get(ghostFieldKey{x, "lo"}, e.valName(x)+".lo", false)), linAtom(e.at.get(ghostFieldKey{x, "hi"}, e.valName(x)+".hi", false)), true
+	}
+	return lin{}, lin{}, false
+}
+
+func (e *lbEngine) present(st *lstate, a atomID) bool {
+	if st.atomSet == nil {
+		st.atomSet = st.atomsOf()
+	}
+	return st.atomSet[a]
+}
+
+// tilingStore handles a store into a field of Lexer.Token or of a TokenComment literal.
+func (e *lbEngine) tilingStore(in *lbInst, stp **lstate, x *ssa.Store) bool {
+	st := *stp
+	// the whole token is reset
+	if fa, ok := x.Addr.(*ssa.FieldAddr); ok && fieldAddrName(fa) == "Token" && e.aliasOf(in, fa.X) == "lexer" {
+		*stp = e.dropGhosts(st, "Token")
+		return true
+	}
+	fa, ok := x.Addr.(*ssa.FieldAddr)
+	if !ok {
+		return false
+	}
+	var owner any
+	ownerName := ""
+	switch b := fa.X.(type) {
+	case *ssa.FieldAddr:
+		if fieldAddrName(b) == "Token" && e.aliasOf(in, b.X) == "lexer" {
+			owner, ownerName = "Token", "Token"
+		}
+	case *ssa.Alloc:
+		if isNamed(b.Type().(*types.Pointer).Elem(), modRoot+"/token", "TokenComment") {
+			owner, ownerName = b, "comment"
+		}
+	}
+	if owner == nil {
+		return false
+	}
+	field := fieldAddrName(fa)
+	fn := in.fn
+	eqOb := func(what string, a, b lin) {
+		e.requireAt(st, fn, x, "C13/R4", fmt.Sprintf("%s: %s.%s — %s", funcName(fn), ownerName, field, what),
+			[]string{"<=", ">="}, []lin{b.sub(a), a.sub(b)})
+	}
+	set := func(name string, l lin) {
+		g := e.ghostAtom(owner, ownerName, name)
+		st = st.eliminate(e.at, map[atomID]bool{g: true}).eq(linAtom(g), l)
+	}
+	get := func(name string) (lin, bool) {
+		id, ok := e.at.byKey[ghostFieldKey{owner, name}]
+		if !ok || !e.present(st, id) {
+			return lin{}, false
+		}
+		return linAtom(id), true
+	}
+	lastEnd := e.at.get("lastEnd", "end of the last token/comment", false)
+	switch field {
+	case "Space", "Raw":
+		lo, hi, ok := e.bufSlice(in, x.Val)
+		if !ok {
+			if c, isC := x.Val.(*ssa.Const); isC {
+				if sv, _ := constString(c); sv == "" {
+					return true
+				}
+			}
+			e.requireAt(st, fn, x, "C13/R4", fmt.Sprintf("%s: %s.%s — is a slice of the input", funcName(fn), ownerName, field), []string{"stored text is Buffer[a:b]"}, []lin{linConst(-1)})
+			return true
+		}
+		if field == "Space" {
+			if e.record {
+				eqOb("begins where the previous token or comment ended", lo, linAtom(lastEnd))
+				if p, ok := get("Pos"); ok {
+					eqOb("ends at Pos", hi, p)
+				}
+				if r, ok := get("RawLo"); ok {
+					eqOb("ends where Raw begins", hi, r)
+				}
+			}
+			set("SpaceLo", lo)
+			set("SpaceHi", hi)
+		} else {
+			if e.record {
+				if s, ok := get("SpaceHi"); ok {
+					eqOb("begins where Space ends", lo, s)
+				}
+				if p, ok := get("Pos"); ok {
+					eqOb("begins at Pos", lo, p)
+				}
+				if en, ok := get("End"); ok {
+					eqOb("ends at End", hi, en)
+				}
+			}
+			set("RawLo", lo)
+			set("RawHi", hi)
+		}
+	case "Pos", "End":
+		l, ok := e.linear(in, x.Val)
+		if !ok {
+			return true
+		}
+		if field == "Pos" {
+			if e.record {
+				if s, ok := get("SpaceHi"); ok {
+					eqOb("is where Space ends", l, s)
+				}
+				if r, ok := get("RawLo"); ok {
+					eqOb("is where Raw begins", l, r)
+				}
+			}
+			set("Pos", l)
+		} else {
+			if e.record {
+				if r, ok := get("RawHi"); ok {
+					eqOb("is where Raw ends", l, r)
+				}
+			}
+			set("End", l)
+			st = st.eliminate(e.at, map[atomID]bool{lastEnd: true}).eq(linAtom(lastEnd), l)
+		}
+	default:
+		return false
+	}
+	*stp = st
+	return true
+}
+
 // ---- roots --------------------------------------------------------------------------------------
 
 func (e *lbEngine) runRoot(fn *ssa.Function, bools map[string]bool) {
@@ -1667,6 +1911,10 @@ func (e *lbEngine) runRoot(fn *ssa.Function, bools map[string]bool) {
 			st = st.ge(linAtom(e.lenAtom(p)), linConst(pre.minLen))
 			e.rootPre = append(e.rootPre, fmt.Sprintf("%s: len(%s) >= %d — %s", funcName(fn), p.Name(), pre.minLen, pre.why))
 		}
+	}
+	if e.tiling {
+		// inductive hypothesis: the previous call left the cursor at the End of its token (checked on return)
+		st = st.eq(linAtom(e.at.get("lastEnd", "end of the last token/comment", false)), linAtom(e.P))
 	}
 	e.frames = []lbFrame{{fn: fn}}
 	e.record = true
@@ -1885,4 +2133,37 @@ func ruleC15R5(w *World, r *Report) {
 	for _, n := range uniqSorted(e.notes) {
 		r.undecided(rule, "engine limit: "+n, "-", "the interpretation lost track here")
 	}
+}
+
+// ruleC13R4: Space and Raw of the comments and of the token tile the input.
+func ruleC13R4(w *World, r *Report) {
+	const rule = "C13/R4"
+	r.rule(rule, "the texts recorded by (*Lexer).nextToken tile the input: every Space and Raw is a slice Buffer[a:b] of the input; a comment's or token's Space begins where the previous comment or token ended (the cursor at entry for the first one), Space ends where Raw begins, Pos is where Raw begins and End where it ends, and on every return the cursor is at the End last recorded — proved as equalities of linear terms over the cursor in the LEXBOUNDS domain (callees only move the cursor forward)", 8)
+	defer debug.SetGCPercent(debug.SetGCPercent(1000))
+	root := w.fn(w.Mem, "(*Lexer).nextToken")
+	if root == nil {
+		r.errorf("(*Lexer).nextToken not found")
+		return
+	}
+	e := w.newLexBounds()
+	e.tiling, e.shallow = true, true
+	e.trace = verboseRule() != "" && verboseRule() != "1" && strings.HasPrefix(rule, verboseRule())
+	e.runRoot(root, map[string]bool{"noPanic": false})
+	e.runRoot(root, map[string]bool{"noPanic": true})
+	for _, ob := range e.results() {
+		if ob.rule != rule {
+			continue
+		}
+		if ob.failed == 0 {
+			r.ok(rule, ob.construct, ob.where, fmt.Sprintf("proved in %d context(s)", ob.total))
+		} else {
+			var ds []string
+			for d := range ob.details {
+				ds = append(ds, d)
+			}
+			sort.Strings(ds)
+			r.bad(rule, ob.construct, ob.where, fmt.Sprintf("%d of %d context(s): %s", ob.failed, ob.total, strings.Join(ds, " | ")))
+		}
+	}
+	// (writes to the current token outside nextToken — the '>>' split — are the subject of C13/R1)
 }
